@@ -104,7 +104,10 @@ def rule_span_collections(ctx, facts, rule):
     """C02-R2: a span collection carries the ids of the token item that selected its collector."""
     prov = Prov(facts)
     cons = [c for c in constructions(facts, SPAN_COLLECTION, crates=["fastrace"]) if not EXCLUDE.search(c[0].path)]
-    ctx.floor(rule, SPAN_COLLECTION, len(cons), 4, "constructions of SpanCollection")
+    ctx.floor(rule, SPAN_COLLECTION, len(cons), 2, "constructions of SpanCollection (one per variant at least)")
+    have = {c[2]["rv"]["variant"] for c in cons}
+    ctx.check({"Owned", "Shared"} <= have, rule, SPAN_COLLECTION, "-", "both SpanCollection variants are constructed", "%s" % sorted(have),
+              "variants constructed: %s" % sorted(have), extra="variants")
     n = 0
     for fn, b, s, f in cons:
         n += 1
